@@ -46,6 +46,14 @@ CHECKS["C06"] = dict(
     ref="C06",
 )
 
+CHECKS["C02"] = dict(
+    technique="hand-written Coq model of stringify tied to the code by vm_compute correspondence on real mypy nodes; Coq proof of the string-literal escape round-trip for all strings; ast.parse/ast.dump oracle on curated and generated expressions",
+    category="proof",
+    text="Partial. Lib/Stringify.v models stringify/_stringify/get_fstring_parts (precedence, placeholders, f-strings) and is compared with the real function on ~700 (quick) harvested mypy nodes per run. Proved for all code-point lists: the quoted text of a str literal reads back as the same string (str_literal_roundtrip). Not expressible without a Python parser in Coq: 'parses and has the same tree'; that is decided by execution: every quoted fragment is parsed with ast.parse and its normalised dump compared with that of the source.",
+    note="Trusted: Coq kernel; the model-code correspondence (differential testing); Python's ast as oracle; repr() of non-ASCII code points assumed to leave them unescaped (harness feeds printable ones). Open findings: call callee not parenthesised (pinned by a golden file), empty f-string and nested format spec quoted as mypy's desugaring.",
+    ref="C02",
+)
+
 NOT_APPLICABLE = {}
 
 
